@@ -93,8 +93,16 @@ pub fn refpp(seq: &[Item]) -> RefEval {
 }
 
 pub fn render(seq: &[Item]) -> String {
+    render_with(seq, &[])
+}
+/// `hostile`: indices of markers (the disabled ones) that are followed, on their line, by text the lexer rejects
+pub fn render_with(seq: &[Item], hostile: &[usize]) -> String {
     let mut s = String::new();
     for (i, it) in seq.iter().enumerate() {
+        if hostile.contains(&i) {
+            s.push_str(&format!("mk{} !bogus \"open\n", i));
+            continue;
+        }
         match *it {
             Item::Define(m) => s.push_str(&format!("#define {}\n", MACROS[m as usize])),
             Item::Ifdef(m) => s.push_str(&format!("#ifdef {}\n", MACROS[m as usize])),
@@ -135,7 +143,20 @@ pub fn check_seq(seq: &[Item], ctx: &mut Ctx) {
     if !ev.well_nested {
         return; // stray #else/#endif: outside the statement
     }
-    let text = render(seq);
+    check_seq_rendered(seq, &ev, &[], ctx);
+    // second rendering: the disabled markers carry text the lexer rejects (an unknown operator, an unterminated
+    // string); nothing about it may surface, and the preprocessor's own errors must still be the ones reported
+    // (only markers in front of the first nameless directive: the reference evaluation is exact up to there)
+    let first_nameless = seq.iter().position(|i| matches!(i, Item::IfdefNoName | Item::DefineNoName)).unwrap_or(seq.len());
+    let disabled: Vec<usize> = seq.iter().enumerate().filter(|(i, it)| *i < first_nameless && **it == Item::Marker && !ev.selected.contains(i)).map(|(i, _)| i).collect();
+    if !disabled.is_empty() {
+        ctx.feature("lexically_bad_disabled_text");
+        check_seq_rendered(seq, &ev, &disabled, ctx);
+    }
+}
+
+fn check_seq_rendered(seq: &[Item], ev: &RefEval, hostile: &[usize], ctx: &mut Ctx) {
+    let text = render_with(seq, hostile);
     ctx.eval();
     ctx.current_text(&text);
     syntax::verif::arm(64 * (text.len() as u64 + 8));
@@ -449,10 +470,10 @@ impl Check for C15 {
         }
     }
     fn rule(&self) -> String {
-        "EXHAUSTIVE: every sequence of length <= 6 (thorough: <= 8) over {#define A, #define B, #ifdef A, #ifdef B, #ifndef A, #ifndef B, #else, #endif, marker identifier, #ifdef without name, #define without name}, one item per line, pruned at the first stray #else/#endif (outside the statement). Well-nested, fully named, closed sequences: the Id tokens of syntax::parse must equal the markers selected by the reference evaluator refpp and no Error token may appear. Closed-but-for-EOF sequences: some syntax error must mention the missing #endif. Sequences with exactly one nameless directive in enabled text: some error must mention the macro name. SAMPLED (ide level): random nestings up to depth 4 with `class V_k {..}` in enabled and `class Hidden_k : Undefined_k; \"unterminated [{ (` in disabled regions: the outline must be exactly the V_k and there must be no diagnostics. non-trivial = sequence contains a conditional / workspace contains disabled declarations; distinct by text digest".into()
+        "EXHAUSTIVE: every sequence of length <= 6 (thorough: <= 8) over {#define A, #define B, #ifdef A, #ifdef B, #ifndef A, #ifndef B, #else, #endif, marker identifier, #ifdef without name, #define without name}, one item per line, pruned at the first stray #else/#endif (outside the statement). Well-nested, fully named, closed sequences: the Id tokens of syntax::parse must equal the markers selected by the reference evaluator refpp and no Error token may appear. Closed-but-for-EOF sequences: some syntax error must mention the missing #endif. Sequences with exactly one nameless directive in enabled text: some error must mention the macro name. Every sequence with a disabled marker (in front of the first nameless directive) is evaluated a second time with `!bogus \"open` - an unknown operator and an unterminated string - appended to each disabled marker's line: the same three oracles apply, so lexical complaints about disabled text may neither surface nor displace the preprocessor's own report. SAMPLED (ide level): random nestings up to depth 4 with `class V_k {..}` in enabled and `class Hidden_k : Undefined_k; \"unterminated [{ (` in disabled regions: the outline must be exactly the V_k and there must be no diagnostics. non-trivial = sequence contains a conditional / workspace contains disabled declarations; distinct by text digest".into()
     }
     fn floors(&self, tier: Tier) -> Vec<(&'static str, u64)> {
-        vec![("exhaustive_units", 122), ("well_nested", tier.pick(10_000, 500_000)), ("unterminated", tier.pick(100_000, 10_000_000)), ("nameless", tier.pick(100_000, 10_000_000)), ("has_disabled_marker", tier.pick(1500, 100_000)), ("ide_with_disabled_decl", 1000)]
+        vec![("exhaustive_units", 122), ("well_nested", tier.pick(10_000, 500_000)), ("unterminated", tier.pick(100_000, 10_000_000)), ("nameless", tier.pick(100_000, 10_000_000)), ("has_disabled_marker", tier.pick(1500, 100_000)), ("lexically_bad_disabled_text", tier.pick(10_000, 500_000)), ("ide_with_disabled_decl", 1000)]
     }
     fn exhaustive(&self, tier: Tier) -> Option<String> {
         Some(format!("all directive/marker sequences of length <= {} over the 11-item alphabet (pruned only where a stray #else/#endif already makes every extension ill-nested)", tier.pick(6, 8)))
